@@ -146,7 +146,12 @@ def run_bn(ns, c):
             got = np.asarray(y.data, dtype=np.float64)
             sc = max(1.0, float(np.max(np.abs(want))))
             amp = max(1.0, float(np.max(np.abs(x64))) / 50.0)                   # float32 rounding of x is amplified by |x|/sigma
-            otol = (5e-4 * amp if dt == np.float32 else 1e-9) * sc
+            # float32: the rounding of x (and of the mean), eps32*|x|, is divided by sqrt(var+eps); two nearly equal samples far from the origin
+            # make that quotient large (seen in a thorough sweep: x ~ 300, sigma ~ 3e-3), so the bound follows the conditioning of the batch
+            axes_ = tuple(i for i in range(x64.ndim) if i != 1)
+            sig_min = float(np.sqrt(np.min(x64.var(axis=axes_) if use_batch else rv) + c["eps"]))
+            cond = 16 * float(np.finfo(np.float32).eps) * float(np.max(np.abs(x64))) / sig_min
+            otol = ((5e-4 * amp + cond) if dt == np.float32 else 1e-9) * sc
             if got.shape != want.shape or not np.allclose(got, want, rtol=0, atol=otol):
                 viol.append(V(f"bn:output-differs:{'batch-stats' if use_batch else 'running-stats'}",
                               f"output in {'training' if training else 'eval'} mode is not the normalisation with the {'batch' if use_batch else 'running'} statistics",
